@@ -81,6 +81,64 @@ impl Item for Tok {
     }
 }
 
+/// A second element shape (swarm dimension "element layout"): 16-byte aligned, with padding
+/// bytes in front of the tracked payload, so that code which assumes a particular element size,
+/// alignment or field offset reads something the ledger does not recognise. All callbacks
+/// delegate to the inner `Tok`, which reports to the ledger as usual.
+#[repr(C, align(16))]
+pub struct Wide {
+    pub pad: u8,
+    pub inner: Tok,
+}
+impl Debug for Wide {
+    fn fmt(&self, f: &mut std::fmt::Formatter<'_>) -> std::fmt::Result {
+        Debug::fmt(&self.inner, f)
+    }
+}
+impl std::fmt::Display for Wide {
+    fn fmt(&self, f: &mut std::fmt::Formatter<'_>) -> std::fmt::Result {
+        std::fmt::Display::fmt(&self.inner, f)
+    }
+}
+impl Hash for Wide {
+    fn hash<H: std::hash::Hasher>(&self, state: &mut H) {
+        self.inner.hash(state)
+    }
+}
+impl PartialEq for Wide {
+    fn eq(&self, o: &Wide) -> bool {
+        self.inner == o.inner
+    }
+}
+impl Default for Wide {
+    fn default() -> Wide {
+        Wide { pad: 0xA5, inner: Tok::default() }
+    }
+}
+impl Clone for Wide {
+    fn clone(&self) -> Wide {
+        Wide { pad: self.pad, inner: self.inner.clone() }
+    }
+}
+impl Item for Wide {
+    const W: usize = 1;
+    #[inline]
+    fn grp(&self) -> Grp {
+        if self.pad != 0xA5 {
+            tok::raise(tok::V2_UNKNOWN_ELEMENT, "an element's padding byte was overwritten or read at the wrong offset (torn read)".to_string());
+        }
+        tok::check_read("read", self.inner.id, self.inner.val);
+        Grp::one(self.inner.id)
+    }
+    fn fresh(pos: u32, owner: u8) -> Self {
+        Wide { pad: 0xA5, inner: Tok::new(pos * 4, owner) }
+    }
+    type Inner = NoInner;
+    fn into_inner(self) -> Result<NoInner, Self> {
+        Err(self)
+    }
+}
+
 macro_rules! item_vec {
     ($Vec:ident, $n:expr, [$($f:ident)+], [$($i:tt)+]) => {
         impl Item for vek::vec::repr_c::$Vec<Tok> {
